@@ -588,8 +588,12 @@ row('CODE.CDR', ['C08'], touches=['code'], clauses=[
 row('CODE.CONS', ['C08'], takes=[('code', 2)], pushes=[('code', None)], clauses=[
     ('fired.value.code.0', 'S0.code.len() >= 2 ==> top(S1.code, 0) is List && top(S1.code, 0)->items@ =~= '
      '(if top(S0.code, 0) is List { top(S0.code, 0)->items@ } else { seq![top(S0.code, 0)] }).push(top(S0.code, 1))')])
-for nm in ['CODE.CONTAINER']:
-    row(nm, ['C08'], fired='(S0.code.len() >= 2)', pushes=[('code', None)])
+# CONTAINER: the list of the top item that directly holds the first (depth first) occurrence of the second item; an empty list when the
+# second item does not occur strictly inside the top item
+_co = 'crate::push::item::container_of(top(S0.code, 0), top(S0.code, 1))'
+row('CODE.CONTAINER', ['C08'], fired='(S0.code.len() >= 2)', pushes=[('code', None)], clauses=[
+    ('fired.value.container', '(S0.code.len() >= 2 && %s.is_some()) ==> top(S1.code, 0) == %s.unwrap()' % (_co, _co)),
+    ('fired.value.no-container', '(S0.code.len() >= 2 && %s.is_none()) ==> (top(S1.code, 0) is List && top(S1.code, 0)->items@.len() == 0)' % _co)])
 # CONTAINS: the top item contains the second item anywhere (at any depth, itself included) -- the operand order the repository's test pins;
 # MEMBER is its mirror image (the second item contains the top item).  Structural: some point of the container equals the other item.
 row('CODE.CONTAINS', ['C08'], fired='(S0.code.len() >= 2)', pushes=[('bool', 'crate::push::item::first_pos(top(S0.code, 0), top(S0.code, 1)).is_some()')])
@@ -642,7 +646,12 @@ FP = 'crate::push::item::first_pos'
 row('CODE.POSITION', ['C08'], fired='(S0.code.len() >= 2)',
     pushes=[('int', 'match %s(top(S0.code, 0), top(S0.code, 1)) { Some(p) => p as i32, None => -1i32 }' % FP)])
 row('CODE.PRINT', ['C11'], fired='(S0.code.len() >= 1)', pushes=[('name', None)])
-row('CODE.SUBST', ['C08'], takes=[('code', 3)], pushes=[('code', None)])
+# SUBST: target = top item, substitute = second, pattern = third (the operand order of the code's own comments): every structural (deep-equal)
+# match of the pattern in the target is replaced by the substitute -- the whole target when it matches itself -- and nothing else changes
+_t, _su, _pa = 'top(S0.code, 0)', 'top(S0.code, 1)', 'top(S0.code, 2)'
+row('CODE.SUBST', ['C08'], takes=[('code', 3)], pushes=[('code', None)], clauses=[
+    ('fired.value.whole-target-matches', '(S0.code.len() >= 3 && crate::push::item::deep_eq(%s, %s)) ==> top(S1.code, 0) == %s' % (_t, _pa, _su)),
+    ('fired.value.all-and-only-matches-replaced', '(S0.code.len() >= 3 && !crate::push::item::deep_eq(%s, %s)) ==> crate::push::item::subst_ok(%s, top(S1.code, 0), %s, %s)' % (_t, _pa, _t, _pa, _su))])
 
 # ------------------------------------------------------------------ C18: GRAPH instructions -- operands, footprint, snapshots
 def graph_top_only():
